@@ -361,6 +361,26 @@ func runC06(r *rt.Run) {
 			})
 		}
 	})
+	// one extra member of every name the library's sources spell, in every
+	// member position, with every kind of value. (That the Circle output drops
+	// members is the listed finding, established on the fixed families above;
+	// here the question is whether answers, centre and radius survive.)
+	snd := sourceNameDocs()
+	r.Bounds["source_derived_member_names"] = len(sourceNames())
+	r.Bounds["source_derived_member_documents"] = len(snd)
+	r.ParFor(len(snd), func(i int, w *rt.Worker) {
+		w.States++
+		w.Nontriv++
+		for _, os := range sets {
+			w.Evals++
+			c06One(snd[i], os, func(class string, c rt.Case, exp, got string) {
+				if class == "circle-drops-members" {
+					return
+				}
+				w.Fail(class, func() (rt.Case, string, string) { return c, exp, got })
+			})
+		}
+	})
 	r.Sample(rt.Case{Kind: "doc", Op: "roundtrip", Doc: seeds[len(seeds)-5], Cfg: "default"})
 	r.Sample(rt.Case{Kind: "doc", Op: "roundtrip", Doc: seeds[30], Cfg: optAlt.Name})
 }
